@@ -80,7 +80,8 @@ def mutate(rng, doc, version):
         k = rng.choice(["top-field", "el-field", "dup-el", "cycle", "self-signed", "dangling",
                         "target", "drop-el", "dup-name", "nonstring-name", "type", "grow",
                         "elements-kind", "retarget-any", "hex-resize", "hex-resize",
-                        "unicode-name", "root-named-element", "nonfinite-number"])
+                        "unicode-name", "root-named-element", "nonfinite-number",
+                        "x509-unknown-signature-oid"])
         els = d.get("elements")
         ok_els = isinstance(els, list) and els and all(isinstance(e, dict) for e in els)
         if k == "top-field":
@@ -112,6 +113,14 @@ def mutate(rng, doc, version):
             if rng.random() < 0.3 and isinstance(d.get("targets"), list):
                 d["targets"].append(root_name)
             labels.append("root-named-element")
+        elif k == "x509-unknown-signature-oid" and ok_els and version == 2:
+            xs = [e for e in els if e.get("type") == "x509_pem" and isinstance(e.get("message"), str)]
+            if xs:
+                e = rng.choice(xs)
+                body = g2.unknown_signature_oid(e["message"])
+                if body is not None:
+                    e["message"] = body
+                    labels.append("x509-unknown-signature-oid")
         elif k == "nonfinite-number" and ok_els:
             # a number where a name is meant, of the kind a JSON parser turns into a
             # non-finite float (1e999, -1e999, NaN) or a huge integer: as the signer
